@@ -4,6 +4,7 @@
 //!        S <cap> <lo> <hi>                             exhaustive sweep (see `sweep`)
 //! out:   per call the identity class of the returned reference = index of the first call that
 //!        returned the same address (`N` for get_by_hash -> None), then n=<num_nodes> h=<hits>
+//!        order=<identity classes of the stored elements in slot order (iter())>
 //!        sweep: n=<histories> digest=<fnv1a-64 of all result lines>
 use rsdd::verif::{BackedRobinhoodTable, TABLE_CAPACITY};
 use rsdd_verif_harness::*;
@@ -189,7 +190,17 @@ fn history(cap: Option<usize>, ops: &[Op]) -> Res {
             fails.push(format!("hits = {hits} but {expect_hits} calls found an existing element"));
         }
     }
-    line.push_str(&format!(" n={nn} h={hits}"));
+    line.push_str(&format!(" n={nn} h={hits} order="));
+    // the slot order of the stored elements (iter() walks the slot array): makes the layout, hence
+    // the capacity at every moment (homes are hash % cap) and the robin-hood swaps, observable
+    let ord: Vec<String> = tbl.iter().map(|r| match first_call.get(&(r as *const u64 as usize)) {
+        Some(c) => c.to_string(),
+        None => "?".to_string(),
+    }).collect();
+    line.push_str(&ord.join(","));
+    if ord.len() != nn {
+        fails.push(format!("iter() yields {} elements but num_nodes = {nn}", ord.len()));
+    }
     let distinct = elem_at.len();
     drop(handed);
     drop(tbl);
